@@ -135,10 +135,11 @@ class Report:
             "violations": len(new),
         }
         ev["coverage"].update(self.extra)
-        os.makedirs(os.path.join(VERIF, "evidence"), exist_ok=True)
-        with open(os.path.join(VERIF, "evidence", "%s.json" % self.pid), "w") as f:
+        evdir = os.environ.get("VERIF_EVIDENCE_DIR") or os.path.join(VERIF, "evidence")
+        os.makedirs(evdir, exist_ok=True)
+        with open(os.path.join(evdir, "%s.json" % self.pid), "w") as f:
             json.dump(ev, f, indent=1, default=str)
         print("%s %s (violations %d, known findings %d) evidence=%s" % (
             self.pid, "OK" if rc == 0 else "FAILED", len(new), len(printed_known),
-            os.path.join(VERIF, "evidence", "%s.json" % self.pid)))
+            os.path.join(evdir, "%s.json" % self.pid)))
         return rc
